@@ -701,6 +701,16 @@ func predicted(f []string, x [][]string) ([]string, []string) {
 func (w *world) checkDrift(i int, a string, f []string, x [][]string) bool {
 	pf, px := predicted(f, x)
 	af, ax := w.dState(w.snap())
+	// two referrers that become complete with the same blob are pushed in an order the Go
+	// scheduler picks: the intermediate fall-back index (R1 or R2) is the same kind of garbage
+	for _, l := range [][]string{pf, af} {
+		for i, n := range l {
+			if n == "R1" || n == "R2" {
+				l[i] = "R1|R2"
+			}
+		}
+		sort.Strings(l)
+	}
 	if sameSet(pf, af) && sameSet(px, ax) {
 		return true
 	}
